@@ -1,6 +1,7 @@
 import ParryModel.Proto
 import ParryModel.C14.Model
 import ParryModel.C14.Model2
+import ParryModel.C14.Model3
 /-! C14 protocol handlers: model evaluation at `Float` and exact-`Rat` oracles on implementation output. -/
 namespace C14
 open Model Proto
@@ -659,6 +660,7 @@ def pseq2 : P Seq2 := do
 def seqGen2 (s : Seq2) (pos12 : Iso2 Float) (m : Manifold2 Float) : Manifold2 Float :=
   match s.kind with
   | 5 => capsuleCapsule2 ulpsEqF pos12 ⟨0.0, -s.a.x⟩ ⟨0.0, s.a.x⟩ s.a.y ⟨0.0, -s.b.x⟩ ⟨0.0, s.b.x⟩ s.b.y s.pred m
+  | 6 => cuboidCuboid2 pos12 s.a s.b s.pred m
   | 0 => ballBall2 pos12 s.a.x s.b.x s.pred m
   | 1 => convexBallShapes2 (cuboidProject2 s.a) false pos12 s.b.x s.pred m
   | 2 => convexBallShapes2 (cuboidProject2 s.b) true pos12 s.a.x s.pred m
@@ -684,6 +686,7 @@ def seqShapes2 (s : Seq2) : Sh2 × Sh2 :=
   | 2 => (.ball a.x, .cuboid b true)
   | 3 => (.halfspace a, .cuboid b false)
   | 5 => (.capsule ⟨0, -a.x⟩ ⟨0, a.x⟩ a.y, .capsule ⟨0, -b.x⟩ ⟨0, b.x⟩ b.y)
+  | 6 => (.cuboid a false, .cuboid b false)
   | _ => (.cuboid a false, .halfspace b)
 
 def cuboidDistSq2 (he p : V2 Rat) : Rat :=
@@ -728,9 +731,30 @@ def segSegDistSq2 (a1 b1 a2 b2 : V2 Rat) : Rat :=
 
 def vertsCuboid2 (he : V2 Rat) : List (V2 Rat) := [⟨he.x, he.y⟩, ⟨-he.x, he.y⟩, ⟨he.x, -he.y⟩, ⟨-he.x, -he.y⟩]
 
+/-- exact signed distance of two 2-D boxes: penetration depth = the largest of the four face-axis separations when none is
+positive (the minimum translation of two convex polygons is along a face normal), else the smallest distance between edges -/
+def cuboidCuboidDist2 (he1 he2 : V2 Rat) (M : Iso2 Rat) : Rat :=
+  let v2 := (vertsCuboid2 he2).map M.act
+  let v1 := (vertsCuboid2 he1).map M.invAct
+  let lo (l : List Rat) : Rat := l.foldl min (l.headD 0)
+  let s1x := max (lo (v2.map (·.x)) - he1.x) (lo (v2.map (fun v => -v.x)) - he1.x)
+  let s1y := max (lo (v2.map (·.y)) - he1.y) (lo (v2.map (fun v => -v.y)) - he1.y)
+  let s2x := max (lo (v1.map (·.x)) - he2.x) (lo (v1.map (fun v => -v.x)) - he2.x)
+  let s2y := max (lo (v1.map (·.y)) - he2.y) (lo (v1.map (fun v => -v.y)) - he2.y)
+  let sat := max (max s1x s1y) (max s2x s2y)
+  if sat ≤ 0 then sat else
+  let e1 : List (V2 Rat × V2 Rat) := [(⟨he1.x, he1.y⟩, ⟨-he1.x, he1.y⟩), (⟨-he1.x, he1.y⟩, ⟨-he1.x, -he1.y⟩),
+    (⟨-he1.x, -he1.y⟩, ⟨he1.x, -he1.y⟩), (⟨he1.x, -he1.y⟩, ⟨he1.x, he1.y⟩)]
+  let w : List (V2 Rat) := [⟨he2.x, he2.y⟩, ⟨-he2.x, he2.y⟩, ⟨-he2.x, -he2.y⟩, ⟨he2.x, -he2.y⟩].map M.act
+  let e2 : List (V2 Rat × V2 Rat) := [(w.getD 0 V2.zero, w.getD 1 V2.zero), (w.getD 1 V2.zero, w.getD 2 V2.zero),
+    (w.getD 2 V2.zero, w.getD 3 V2.zero), (w.getD 3 V2.zero, w.getD 0 V2.zero)]
+  let d2 := (e1.flatMap fun a => e2.map fun b => segSegDistSq2 a.1 a.2 b.1 b.2).foldl min (segSegDistSq2 he1 he1 (M.act he2) (M.act he2))
+  Rat.sqrtApprox d2
+
 def exactDist2 (sh : Sh2 × Sh2) (M : Iso2 Rat) : Rat :=
   let sq := Rat.sqrtApprox
   match sh with
+  | (.cuboid he1 _, .cuboid he2 _) => cuboidCuboidDist2 he1 he2 M
   | (.ball r1, .ball r2) => sq M.t.normSq - r1 - r2
   | (.cuboid he _, .ball r) =>
     let c := M.t
@@ -806,7 +830,7 @@ def manifoldOracle2 (sh : Sh2 × Sh2) (pos12 : Iso2 Float) (pred : Float) (m : M
 
 def seqOracle2 (s : Seq2) (ms : List (Manifold2 Float)) : String :=
   if ms.length != s.poses.length then "fail wrong-number-of-calls" else
-  if s.kind > 5 then "skip unknown-kind" else
+  if s.kind > 6 then "skip unknown-kind" else
   let sh := seqShapes2 s
   let cc := s.kind == 5
   let rec go : Nat → List (Iso2 Float) → List (Manifold2 Float) → Option String
@@ -815,7 +839,10 @@ def seqOracle2 (s : Seq2) (ms : List (Manifold2 Float)) : String :=
     | i, p :: ps, m :: ms =>
       -- capsule/capsule: the reference depth is the exact axis distance (the one-shot `contact` is unreliable on collinear
       -- axes, C02); the second contact of the two-contact branch is not capped by the prediction
+      -- cuboid/cuboid (kind 6): the warm start may keep contacts for up to `i` consecutive calls (drift 1e-3 each), and the
+      -- SAT/clipping generator is compared with the one-shot query only (as for the tiny-cuboid sequences `seq2t`)
       match (if cc then manifoldOracle2 sh p s.pred m none 0 true (1 / 100000) false
+             else if s.kind == 6 then manifoldOracle2 sh p s.pred m (s.oneshot[i]?) (((i : Rat) + 1) / 1000) false
              else manifoldOracle2 sh p s.pred m (s.oneshot[i]?)) with
       | some r => some s!"call={i} {r}"
       | none => go (i + 1) ps ms
@@ -1402,6 +1429,154 @@ def pfmgOracle (g : PfmG) (m : Manifold3 Float) : String :=
       if ((q3 p1).sub (q3 p21)).normSq ≤ 1 / 100000000000000000000 then s!"fail exact-touching-gjk-epa-degenerate {r}" else s!"fail {r}"
     | none => "pass"
 
+
+/-! ### round fu5: 2-D cuboid/cuboid called directly, its one-way SAT, and 2-D `PolygonalFeature::contacts` -/
+structure Cuc2 where
+  pos12 : Iso2 Float
+  he1 : V2 Float
+  he2 : V2 Float
+  pred : Float
+  m : Manifold2 Float
+def pcuc2 : P Cuc2 := do
+  let p ← piso2; let a ← pv2; let b ← pv2; let pr ← pf; let m ← pman2; pure ⟨p, a, b, pr, m⟩
+
+/-- fresh call (empty prior manifold): every clause incl. presence and depth against the EXACT box/box distance; with a prior
+manifold the warm start may have been taken: witnesses may have drifted by 1e-3 and depth is compared as in the sequences -/
+def cuc2Oracle (c : Cuc2) (m' : Manifold2 Float) : String :=
+  let sh : Sh2 × Sh2 := (.cuboid (q2 c.he1) false, .cuboid (q2 c.he2) false)
+  let fresh := c.m.points.isEmpty
+  match manifoldOracle2 sh c.pos12 c.pred m' none (if fresh then 0 else 1 / 1000) false with
+  | some r => s!"fail {r}"
+  | none =>
+    if !fresh then "pass" else
+    let D := cuboidCuboidDist2 (q2 c.he1) (q2 c.he2) (qiso2 c.pos12); let P := q c.pred
+    let tol : Rat := 1 / 1000000
+    let deep : Option Rat := m'.points.foldl (fun acc k => match acc with | none => some (q k.dist) | some d => some (min d (q k.dist))) none
+    match deep with
+    | none =>
+      if D < -(tol * (1 + rabs D)) then s!"fail no-contact-but-penetrating exact-dist={D}"
+      -- separated by less than the prediction, closest features two corners: the two support faces do not overlap along the
+      -- tangent, the clipping returns nothing (own verdict, known finding of the SAT/clipping generator)
+      else if 0 < D && D < P - tol * (1 + rabs D + rabs P) then s!"fail predictive-contact-missing exact-dist={D}<prediction"
+      else "pass"
+    | some d =>
+      if close d D tol then "pass"
+      -- separated boxes: the closest vertex was clipped away, the smallest reported gap exceeds the true distance
+      else if 0 < D && D < d then s!"fail predictive-gap-overestimated deepest={d} exact={D}"
+      else s!"fail deepest={d} exact={D}"
+
+/-- brute force over the vertices: the returned axis is a signed coordinate axis on the side of the translation, the value is the
+exact separation along it, and no coordinate axis (on the side of the translation) separates more -/
+def sat2Oracle (pos12 : Iso2 Float) (he1 he2 : V2 Float) (sep : Float) (dir : V2 Float) : String :=
+  let M := qiso2 pos12; let h1 := q2 he1; let d := q2 dir; let s := q sep
+  let v2 := (vertsCuboid2 (q2 he2)).map M.act
+  let along (a : V2 Rat) : Rat := (v2.map fun v => v.dot a).foldl min ((M.act (q2 he2)).dot a) - (h1.x * rabs a.x + h1.y * rabs a.y)
+  if !((d.x = 0 && rabs d.y = 1) || (d.y = 0 && rabs d.x = 1)) then s!"fail axis-not-a-signed-coordinate-axis {d.x} {d.y}" else
+  if d.dot M.t < 0 then "fail axis-points-away-from-the-translation" else
+  if !(close s (along d)) then s!"fail separation={s} exact-along-axis={along d}" else
+  let sx : Rat := if M.t.x < 0 then -1 else 1
+  let sy : Rat := if M.t.y < 0 then -1 else 1
+  let best := max (if M.t.x = 0 then max (along ⟨1, 0⟩) (along ⟨-1, 0⟩) else along ⟨sx, 0⟩)
+                  (if M.t.y = 0 then max (along ⟨0, 1⟩) (along ⟨0, -1⟩) else along ⟨0, sy⟩)
+  let least := max (if M.t.x = 0 then min (along ⟨1, 0⟩) (along ⟨-1, 0⟩) else along ⟨sx, 0⟩)
+                   (if M.t.y = 0 then min (along ⟨0, 1⟩) (along ⟨0, -1⟩) else along ⟨0, sy⟩)
+  if !(leTol s best tolDefault && leTol least s tolDefault) then s!"fail not-the-best-axis separation={s} best={best}" else "pass"
+
+structure PC2 where
+  pos12 : Iso2 Float
+  f1 : List (V2 Float)
+  f2 : List (V2 Float)
+  sep : V2 Float
+  flipped : Bool
+def ppc2 : P PC2 := do
+  let p ← piso2; let f1 ← plist pv2; let f2 ← plist pv2; let s ← pv2; let f ← pbool; pure ⟨p, f1, f2, s, f⟩
+
+def pc2Model (c : PC2) : String :=
+  match polyContacts2 c.pos12 c.pos12.inverse c.sep (c.pos12.invRot c.sep.neg) c.f1 c.f2 c.flipped with
+  | some cs => String.intercalate " " (toString cs.length :: cs.map fcontact2)
+  | none => "panic"
+
+/-- face/face: none or two contacts; un-flipped, the first witness lies on face 1, the second on face 2 (frame 2),
+`dist = (pos12·p2 − p1)·sep`, the witnesses have the same coordinate along the tangent `(−sep.y, sep.x)`; no contact iff the
+tangent ranges of the faces are disjoint, else the two contacts sit at the two ends of the common range.
+face/vertex arms (never produced by a parry shape in 2-D): the vertex witness is the vertex; when the face has unit length and
+`sep` is its normal `(−t.y, t.x)` also the `dist` identity and the face witness on the face line (otherwise skipped: the routine
+scales the witness by the un-normalised face normal). -/
+def pc2Oracle (c : PC2) (out : List String) : String :=
+  match out with
+  | "panic" :: _ => if c.f1.length != 2 && c.f2.length != 2 then "skip unimplemented-arm-vertex-vertex" else "fail panic"
+  | _ =>
+  match run (plist pocontact2) out with
+  | none => "fail unparsable-output"
+  | some pts0 =>
+  let M := qiso2 c.pos12; let S := q2 c.sep
+  let T : V2 Rat := ⟨-S.y, S.x⟩
+  let vertexArmOutside : Bool :=
+    let chk (a b Sf : V2 Rat) : Bool :=
+      let t := b.sub a; let n : V2 Rat := ⟨-t.y, t.x⟩
+      rabs (t.normSq - 1) > 1 / 1000000000000 || (n.sub Sf).normSq > 1 / 100000000000000000000
+    match c.f1.map q2, c.f2.map q2 with
+    | [a, b], [_] => chk a b S
+    | [_], [a, b] => chk a b (M.invRot S.neg)
+    | _, _ => false
+  if vertexArmOutside then "skip face-vertex-arm-needs-unit-face-and-its-normal" else
+  if !(pts0.all finc2) then "fail nonfinite-output" else
+  let pts := pts0.map fun c0 => let k := qc2 c0; if c.flipped then (⟨k.p2, k.p1, k.dist⟩ : Contact2 Rat) else k
+  match c.f1.map q2, c.f2.map q2 with
+  | [a1, b1], [a2, b2] =>
+    let ptol : Rat := (1 + a1.normSq + b1.normSq + a2.normSq + b2.normSq + M.t.normSq) / 1000000000000
+    let u1 := (a1.dot T, b1.dot T); let u2 := ((M.act a2).dot T, (M.act b2).dot T)
+    let lo := max (min u1.1 u1.2) (min u2.1 u2.2); let hi := min (max u1.1 u1.2) (max u2.1 u2.2)
+    let utol : Rat := (1 + rabs lo + rabs hi) / 1000000000
+    if pts.isEmpty then (if lo + utol < hi then s!"fail no-contact-but-ranges-overlap lo={lo} hi={hi}" else "pass")
+    else if pts.length != 2 then "fail wrong-number-of-contacts"
+    else if hi < lo - utol then s!"fail contacts-but-ranges-disjoint lo={lo} hi={hi}"
+    else
+      let bad := pts.findSome? fun k =>
+        let w := (M.act k.p2).sub k.p1
+        if segDistSq2 a1 b1 k.p1 > ptol then some s!"p1-off-face-1 d²={segDistSq2 a1 b1 k.p1}"
+        else if segDistSq2 a2 b2 k.p2 > ptol then some s!"p2-off-face-2 d²={segDistSq2 a2 b2 k.p2}"
+        else if !(close k.dist (w.dot S)) then some s!"dist-identity dist={k.dist} expected={w.dot S}"
+        else if rabs (w.dot T) > utol * (1 + rabs (w.dot S)) * 1000 then some s!"witnesses-not-aligned {w.dot T}"
+        else none
+      match bad with
+      | some r => s!"fail {r}"
+      | none =>
+        let us := pts.map fun k => k.p1.dot T
+        let ulo := us.foldl min (us.headD 0); let uhi := us.foldl max (us.headD 0)
+        if rabs (ulo - lo) > utol * 1000 || rabs (uhi - hi) > utol * 1000 then s!"fail not-the-ends-of-the-common-range [{ulo},{uhi}] vs [{lo},{hi}]"
+        else "pass"
+  | f1, f2 =>
+    -- one face, one vertex (frame of the face = 1 after the arm's own swap)
+    match pts with
+    | [k] =>
+      let faceFirst := f1.length == 2
+      let (a, b, v, Mf, Sf, pf, pv) :=
+        if faceFirst then (f1.getD 0 V2.zero, f1.getD 1 V2.zero, f2.getD 0 V2.zero, M, S, k.p1, k.p2)
+        else (f2.getD 0 V2.zero, f2.getD 1 V2.zero, f1.getD 0 V2.zero, M.inverse, M.invRot S.neg, k.p2, k.p1)
+      let tol : Rat := (1 + a.normSq + b.normSq + v.normSq + M.t.normSq) / 1000000000000
+      if (pv.sub v).normSq > tol then s!"fail vertex-witness-is-not-the-vertex d²={(pv.sub v).normSq}" else
+      let t := b.sub a; let n : V2 Rat := ⟨-t.y, t.x⟩
+      if rabs (t.normSq - 1) > 1 / 1000000000000 || (n.sub Sf).normSq > 1 / 100000000000000000000 then "skip face-vertex-arm-needs-unit-face-and-its-normal" else
+      let w := (Mf.act v).sub pf
+      if !(close k.dist (w.dot Sf)) then s!"fail dist-identity dist={k.dist} expected={w.dot Sf}"
+      else if rabs ((pf.sub a).dot n) > 1 / 1000000000 * (1 + a.normSq + pf.normSq) then s!"fail face-witness-off-the-face-line {(pf.sub a).dot n}"
+      else "pass"
+    | _ => "fail wrong-number-of-contacts"
+
+
+/-- `seq2m`: the `seq2t` layout (big cuboid, then a small cuboid or a triangle, both orders) run through the model:
+kinds 0/1 `cuboidCuboid2`, kinds 2/3 `cuboidTriangle2` -/
+def seqmGen2 (s : SeqT2) (pos12 : Iso2 Float) (m : Manifold2 Float) : Manifold2 Float :=
+  let g (i : Nat) : Float := s.tiny.getD i 0.0
+  match s.kind with
+  | 0 => cuboidCuboid2 pos12 s.hb ⟨g 0, g 1⟩ s.pred m
+  | 1 => cuboidCuboid2 pos12 ⟨g 0, g 1⟩ s.hb s.pred m
+  | 2 => cuboidTriangle2 true pos12 s.hb ⟨g 0, g 1⟩ ⟨g 2, g 3⟩ ⟨g 4, g 5⟩ s.pred m
+  | _ => cuboidTriangle2 false pos12 s.hb ⟨g 0, g 1⟩ ⟨g 2, g 3⟩ ⟨g 4, g 5⟩ s.pred m
+def seqmModel2 (s : SeqT2) : String :=
+  String.intercalate " " ((runSeq (seqmGen2 s) Manifold2.new s.poses).map fman2)
+
 def handler (fn : String) : Option Handler :=
   match fn with
   | "tuc3" => some {
@@ -1549,6 +1724,28 @@ def handler (fn : String) : Option Handler :=
       model := fun _ => some "oracle-only"
       oracle := fun a o => match run ppfm3 a with
         | some s => withOut (pmanlist3 s.poses.length) o (pfmOracle s)
+        | none => "skip bad-args" }
+  | "sat2" => some {
+      model := fun a => run (do let p ← piso2; let h1 ← pv2; let h2 ← pv2
+                                let r := satOneway2 h1 h2 p
+                                pure s!"{ff r.1} {fv2 r.2}") a
+      oracle := fun a o => match run (do let p ← piso2; let h1 ← pv2; let h2 ← pv2; pure (p, h1, h2)) a with
+        | some (p, h1, h2) => withOut (do let s ← pfo; let d ← pov2; pure (s, d)) o (fun r => sat2Oracle p h1 h2 r.1 r.2)
+        | none => "skip bad-args" }
+  | "cuc2" => some {
+      model := fun a => run (do let c ← pcuc2; pure (fman2 (cuboidCuboid2 c.pos12 c.he1 c.he2 c.pred c.m))) a
+      oracle := fun a o => match run pcuc2 a with
+        | some c => withOut poman2 o (cuc2Oracle c)
+        | none => "skip bad-args" }
+  | "pc2" => some {
+      model := fun a => run (do let c ← ppc2; pure (pc2Model c)) a
+      oracle := fun a o => match run ppc2 a with
+        | some c => pc2Oracle c o
+        | none => "skip bad-args" }
+  | "seq2m" => some {
+      model := fun a => run (do let s ← pseqt2; pure (seqmModel2 s)) a
+      oracle := fun a o => match run pseqt2 a with
+        | some s => withOut (pN poman2 s.poses.length) o (seqtOracle2 s)
         | none => "skip bad-args" }
   | _ => none
 
